@@ -150,15 +150,18 @@ func (m *vMon) ReassemblyComplete(g []*auparse.AuditMessage) {
 	m.last = uint32(vIf(vOr(!m.have, inOrder), uint64(in.seq), uint64(m.last)))
 	m.have = true
 	// C10 (iii): cause of delivery outside Close
+	// number of undelivered events at the moment this one is evicted (callbacks are made in
+	// eviction order, so this is the buffer size the eviction decision saw)
+	liveNow := len(m.live())
 	if !m.inClose && m.timeoutInf {
-		vAssert(vOr(in.complete, m.peakLive > m.maxInFlight), "C10/delivered-without-cause")
+		vAssert(vOr(in.complete, liveNow > m.maxInFlight), "C10/delivered-without-cause")
 		// the same fact seen from C19: with an effectively infinite timeout nothing is delivered for time
-		vAssert(vOr(in.complete, m.peakLive > m.maxInFlight), "C19/flushed-although-timeout-effectively-infinite")
+		vAssert(vOr(in.complete, liveNow > m.maxInFlight), "C19/flushed-although-timeout-effectively-infinite")
 	}
 	// C19: never delivered on account of time before the timeout has elapsed
 	if !m.inClose && m.symClock {
 		es, en := m.expiry(in)
-		forTime := vAnd(!in.complete, !(m.peakLive > m.maxInFlight))
+		forTime := vAnd(!in.complete, !(liveNow > m.maxInFlight))
 		nowK := vClockCount() - 1
 		if nowK >= 0 {
 			vAssert(vOr(!forTime, !vBefore(vClockSec(nowK), vClockNsec(nowK), es, en)), "C19/flushed-before-timeout")
